@@ -138,6 +138,8 @@ func TestC16(t *testing.T) {
 		}
 		// assemble the expected document with strconv
 		var exp bytes.Buffer
+		type valuePos struct{ off, row, col int }
+		var valueAt []valuePos
 		exp.WriteByte('[')
 		for r := 0; r < n; r++ {
 			if r > 0 {
@@ -154,6 +156,7 @@ func TestC16(t *testing.T) {
 				} else {
 					f := c.F[r]
 					txt := strconv.FormatFloat(f, 'f', -1, 64)
+					valueAt = append(valueAt, valuePos{off: exp.Len(), row: r, col: ci})
 					exp.WriteString(txt)
 					hashes = append(hashes, math.Float64bits(f))
 				}
@@ -179,18 +182,14 @@ func TestC16(t *testing.T) {
 			if hiW > len(want) {
 				hiW = len(want)
 			}
-			// which value?
+			// which value? (offsets of the values in the expected document were recorded while assembling it)
 			msg := ""
-			for r := 0; r < n && msg == ""; r++ {
-				for _, c := range tab.Cols {
-					if c.Kind != hx.KFloat {
-						continue
-					}
-					txt := strconv.FormatFloat(c.F[r], 'f', -1, 64)
-					if !bytes.Contains(got, []byte(`"`+c.Name+`":`+txt)) {
-						msg = fmt.Sprintf("row %d column %s value %v (bits %#x) must be written as %q", r, c.Name, c.F[r], math.Float64bits(c.F[r]), txt)
-						break
-					}
+			for k := len(valueAt) - 1; k >= 0; k-- {
+				if valueAt[k].off <= i {
+					c := tab.Cols[valueAt[k].col]
+					f := c.F[valueAt[k].row]
+					msg = fmt.Sprintf("row %d column %s value %v (bits %#x) must be written as %q", valueAt[k].row, c.Name, f, math.Float64bits(f), strconv.FormatFloat(f, 'f', -1, 64))
+					break
 				}
 			}
 			t.Fatalf("ToJSON float text differs from strconv.FormatFloat(f,'f',-1,64) at byte %d: got …%q… want …%q…\n%s\nrows=%d floatcols=%d strcol=%s strmax=%d class=%d seed-derived",
@@ -220,5 +219,46 @@ func TestC16(t *testing.T) {
 		}
 		evC16.Class(fmt.Sprintf("class=%d", classMix), "strcol:"+strPos, fmt.Sprintf("rows=%d", n))
 		_ = nonzero
+	})
+}
+
+// FuzzC16 is the native fuzzing leg: one bit pattern and a buffer layout byte per input.
+func FuzzC16(f *testing.F) {
+	for _, bits := range []uint64{0, 1, 0x8000000000000000, 0x3ff0000000000000, 0x4340000000000000, 0x4340000000000001, 0x7fefffffffffffff, 0x0010000000000000, 0x000fffffffffffff,
+		0x3fb999999999999a, 0x4415af1d78b58c40, 0x44b52d02c7e14af6, 0x7ff0000000000000, 0xfff0000000000000, 0x3e112e0be826d695} {
+		for _, layout := range []byte{0, 1, 7, 63, 200} {
+			f.Add(bits, layout)
+		}
+	}
+	f.Fuzz(func(t *testing.T, bits uint64, layout byte) {
+		v := math.Float64frombits(bits)
+		if math.IsNaN(v) {
+			return
+		}
+		// layout: length of a string cell before the float and number of leading rows with long text
+		pad := int(layout&0x3f) * 5
+		long := int(layout >> 6)
+		n := long + 1
+		s := make([]*string, n)
+		fl := make([]float64, n)
+		for i := range s {
+			s[i] = hx.Sp(strings.Repeat("y", 200*(long-i)))
+			fl[i] = 1.0 / float64(i+3)
+		}
+		s[n-1] = hx.Sp(strings.Repeat("x", pad))
+		fl[n-1] = v
+		tab := hx.Table{Cols: []hx.Col{{Name: "s", Kind: hx.KString, S: s}, {Name: "f", Kind: hx.KFloat, F: fl}}}
+		var buf bytes.Buffer
+		if err := hx.Build(tab).ToJSON(&buf); err != nil {
+			t.Fatal(err)
+		}
+		want := `"f":` + strconv.FormatFloat(v, 'f', -1, 64) + "}]"
+		if !strings.HasSuffix(buf.String(), want) {
+			out := buf.String()
+			if len(out) > 400 {
+				out = out[len(out)-400:]
+			}
+			t.Fatalf("bits %#x: ToJSON ends with %q, want suffix %q", bits, out, want)
+		}
 	})
 }
